@@ -89,6 +89,45 @@ def batch_exits(chk, n_tasks, jobs):
     return None
 
 
+def batch_exits_then_failed_launch(chk, n_tasks, jobs):
+    """(a') as (a), and each of the tasks has a dependent that CANNOT BE LAUNCHED (a NUL byte in its command): while the
+    exits of the other tasks are recorded but not yet consumed, a launch fails.  Every task must still be accounted for and
+    the run must end.  (Seed C09/i: the failed launch threw away the recorded, unconsumed exits; the run then waited for
+    ever for children that no longer existed.)"""
+    root = implrun.make_project({"COND": ""})
+    flag = os.path.join(root, "go")
+    names = ["w%d" % i for i in range(n_tasks)]
+    cond = ""
+    for nme in names:
+        cond += 'run_experiment(name="%s", run="echo $$ > $COND_OUT/pid; while [ ! -e %s ]; do sleep 0.02; done", parallelizable=True)\n' % (nme, flag)
+        cond += 'run_command(name="d%s", run="echo a\\0b", deps=[":%s"], parallelizable=True)\n' % (nme, nme)
+    cond += 'group(name="after", deps=[%s])\n' % ", ".join('":d%s"' % x for x in names)
+    open(os.path.join(root, "COND"), "w").write(cond)
+    p = subprocess.Popen([PY, "-m", "conductor", "run", "//:after", "-j", str(jobs)], cwd=root, env=dict(os.environ, PYTHONPATH=SRC),
+                         stdout=subprocess.PIPE, stderr=subprocess.PIPE, start_new_session=True)
+
+    def started():
+        return [n for n in names if _pids(root, [n]) is not None]
+
+    if not _wait_for(lambda: len(started()) >= jobs, 30):
+        rc, text, _ = _finish(p, 1)
+        return "harness: tasks did not start: %s" % text[-300:]
+    first = started()[:jobs]
+    pids = _pids(root, first)
+    os.kill(p.pid, signal.SIGSTOP)
+    open(flag, "w").close()
+    _wait_for(lambda: all(_state(pid) in ("Z", None) for pid in pids.values()), 10)
+    os.kill(p.pid, signal.SIGCONT)
+    rc, text, hung = _finish(p, 25)
+    if hung:
+        return ("cond run -j%d did not terminate: %d task(s) exited in one batch and the dependent of the first one could not be launched "
+                "while the exits of the others were still waiting to be consumed; output so far: %r" % (jobs, len(first), text[-300:]))
+    rows = implrun.index_rows(root)
+    if rc in (0, None) or rc < 0 or "Traceback" in text or len(rows) != n_tasks:
+        return "cond run -j%d exited %s with %d recorded version(s) of %d tasks that exited 0 (their dependents cannot be launched): %r" % (jobs, rc, len(rows), n_tasks, text[-300:])
+    return None
+
+
 def unrelated_child(chk, helper_rc, task_rc):
     """(b) the cond process owns a child it did not start; it exits just before the task does: its status must not be
     attributed to the task (a dependent of the task runs iff the TASK exited 0), and it must not be waited for"""
@@ -268,6 +307,7 @@ def stopped_task(chk, parallel):
 
 def reaper_scenarios(chk, tier):
     scen = [("batch-exits-j2", lambda: batch_exits(chk, 2, 2)), ("batch-exits-j3-of-4", lambda: batch_exits(chk, 4, 3)),
+            ("batch-exits-then-failed-launch-j3", lambda: batch_exits_then_failed_launch(chk, 3, 3)),
             ("unrelated-child-7-then-0", lambda: unrelated_child(chk, 7, 0)), ("unrelated-child-0-then-3", lambda: unrelated_child(chk, 0, 3)),
             ("fast-exits", lambda: fast_exits(chk, 12 if tier == "quick" else 200)),
             ("many-fast-parallel", lambda: many_fast_parallel(chk, 3 if tier == "quick" else 30)),
